@@ -8,10 +8,11 @@
 // source labels, the values of the abstract functions H / len / payload / tocdigest evaluated on the committed
 // blob by the harness itself) together with the observed descriptor, content-store label and TOC image, and it
 // evaluates the property clauses directly on the implementation's output (model-free oracle):
-//   sha256/size of the committed blob vs descriptor; decompress -> length + sha256 vs the uncompressed-size
-//   annotation and the containerd.io/uncompressed label; media type vs the compression really used;
-//   estargz.Open + VerifyTOC(TOC-digest annotation); zstd:chunked manifest annotations vs the blob;
-//   lossless: DiffID unchanged; TOC image: every converted layer digest -> a TOC blob that verifies that layer.
+//
+//	sha256/size of the committed blob vs descriptor; decompress -> length + sha256 vs the uncompressed-size
+//	annotation and the containerd.io/uncompressed label; media type vs the compression really used;
+//	estargz.Open + VerifyTOC(TOC-digest annotation); zstd:chunked manifest annotations vs the blob;
+//	lossless: DiffID unchanged; TOC image: every converted layer digest -> a TOC blob that verifies that layer.
 package main
 
 import (
@@ -615,7 +616,10 @@ func exec(c Case) Result {
 		var missed []string
 		common = append(common, estargz.WithPrioritizedFiles([]string{"d0/none", "lnk"}), estargz.WithAllowPrioritizeNotFound(&missed))
 	}
-	common = common[:len(common):len(common)+c.Spare]
+	// the caller's slice has exactly c.Spare unused slots behind its elements
+	exact := make([]estargz.Option, len(common), len(common)+c.Spare)
+	copy(exact, common)
+	common = exact
 	perLayer := map[digest.Digest][]estargz.Option{}
 	for i, l := range c.Ops {
 		if o := layerOpts(l); len(o) > 0 {
@@ -784,6 +788,9 @@ func exec(c Case) Result {
 		case outs[i].err != nil:
 			o.Res = "err"
 			o.Err = outs[i].err.Error()
+			if os.Getenv("C19_ERRS") != "" {
+				fmt.Fprintf(os.Stderr, "ERR kind=%s src=%s/%s: %s\n", c.Kind, c.Ops[i].Comp, c.Ops[i].Fam, o.Err)
+			}
 			continue
 		case outs[i].d == nil:
 			o.Res = "nil"
